@@ -223,6 +223,43 @@ def lexer_case(name):
     return Case('lexer/' + name, work)
 
 
+SCOPED_CALLS = [('text_macro_definition', ('text_macro_name',)), ('text_macro_usage', ('text_macro_identifier',))]
+
+
+def scoped_case(prod, callees):
+    """IEEE 1800-2017 22.5.1: a text macro name shall not be a compiler directive name -- the name of a `define and of a usage
+    is lexed with the set of directive names on top of the keyword-version stack (Engine G on the production body: the scope in
+    force is recorded at every sub-parser call)"""
+    def work():
+        import gprod
+        t0 = time.time()
+        prods = gprod.productions(E.prog())
+        if prod not in prods:
+            raise Inconclusive('production %s not found' % prod)
+        r = gprod.analyze(prod, prods[prod], extra_env={'record_ctx': True}, max_paths=3000, time_cap=120)
+        if r['truncated']:
+            raise Inconclusive('path budget for %s' % prod)
+        out = {'family': 'directive-name-scope', 'label': prod, 'text': '%d paths' % len(r['paths']), 'real_paths': len(r['paths']), 'ref_paths': 0, 'pairs': len(r['paths']),
+               'queries': r['queries'], 'solver_s': r['solver_s'], 'steps': r['steps'], 'models': r['models'], 'cex': [], 'obligations': [], 'case': {'production': prod}}
+        seen = set()
+        called = False
+        for p in r['paths']:
+            for (callee, vtop, vdepth, ddepth) in (p.get('ctx') or []):
+                if callee in callees:
+                    called = True
+                    if vtop != 'Directive' and (callee, vtop) not in seen:
+                        seen.add((callee, vtop))
+                        out['cex'].append({'kind': 'kw', 'note': '%s lexes the macro name (%s) with %s on top of the keyword-version stack, not the set of compiler-directive names: '
+                                           'a directive name can be taken for a macro name' % (prod, callee, vtop or 'nothing pushed'),
+                                           'model': None, 'status': 'reproduced', 'role': 'kw:directive-scope:' + prod})
+        if not called and any(p.get('ok') for p in r['paths']):
+            out['cex'].append({'kind': 'kw', 'note': '%s succeeds without calling %s (vacuous scope obligation)' % (prod, '/'.join(callees)), 'model': None,
+                               'status': 'reproduced', 'role': 'kw:vacuous:' + prod})
+        out['wall'] = round(time.time() - t0, 2)
+        return out
+    return Case('scope/' + prod, work)
+
+
 def families(args):
     cases = [stack_case()]
     for sel in list(range(9)):
@@ -232,6 +269,8 @@ def families(args):
     cases.append(lookup_case(0, 2))
     for lx in ('simple_identifier_impl', 'c_identifier_impl'):
         cases.append(lexer_case(lx))
+    for prod, callees in SCOPED_CALLS:
+        cases.append(scoped_case(prod, callees))
     import lexcases, gprod
     lw = lexcases.work_factory(gprod.productions(E.prog()))
     fam2 = ppprop.Family('bounded-lexical', [c for c in lexcases.cases(args.tier) if c.prop == 'C13'], None, ('lex',), custom_work=lw)
